@@ -109,8 +109,6 @@ def run(rep, tier, seed):
         events = read_ndjson(evf)
         anomalies = [e for e in events if e.get("anomaly")]
         events = [e for e in events if not e.get("anomaly")]
-        if s["rejected_words"] < 20:
-            raise MachineryError("vacuous run: only %d rejected words observed" % s["rejected_words"])
         for a in anomalies[:5]:
             rep.violation({"key": "src-%s-%d" % (a["via"], a["n"] % 1000), "kind": "source", "what": "Roll(n=%d) via %s: %s" % (a["n"], a["via"], a["anomaly"]),
                            "features": ["foreign_source"], "replay": a})
@@ -131,6 +129,8 @@ def run(rep, tier, seed):
                                        e["w"], e["n"], e["v"], "accepted" if e["acc"] else "rejected", e["r"]),
                                    "replay": e})
         if nbad == 0 and not anomalies:
+            if s["rejected_words"] < 20:     # (asked only when nothing was rejected: a change that stops drawing retry words shows up as violations above)
+                raise MachineryError("vacuous run: only %d rejected words observed" % s["rejected_words"])
             # binding self-test: flip one face
             e = dict(next(x for x in events if x["acc"] and x["n"] > 3))
             e["r"] = e["r"] % e["n"] + 1
